@@ -303,6 +303,12 @@ pub proof fn lemma_done_mono(m: &naga::Module, a: Map<String, wgpu::ShaderStages
     }
 }
 
+pub proof fn lemma_vmono_trans(a: Set<naga::Handle<naga::Function>>, b: Set<naga::Handle<naga::Function>>, c: Set<naga::Handle<naga::Function>>)
+    requires vmono(a, b), vmono(b, c),
+    ensures vmono(a, c),
+{
+    assert forall|d: int| #[trigger] vis(a, d) implies vis(c, d) by { assert(vis(b, d)); }
+}
 pub proof fn lemma_mono_trans(a: Map<String, wgpu::ShaderStages>, b: Map<String, wgpu::ShaderStages>, c: Map<String, wgpu::ShaderStages>)
     requires mono(a, b), mono(b, c),
     ensures mono(a, c),
@@ -409,6 +415,42 @@ pub open spec fn fn_post(m: &naga::Module, f: &naga::Function, gs: Map<String, w
 }
 
 
+
+// ---------------- termination / cost measure: number of function handles not yet visited ----------------
+pub open spec fn vset(m: &naga::Module, v: Set<naga::Handle<naga::Function>>) -> Set<int> {
+    Set::<int>::range(0, nfun(m)).filter(|d: int| vis(v, d))
+}
+pub open spec fn unvisited(m: &naga::Module, v: Set<naga::Handle<naga::Function>>) -> nat {
+    (nfun(m) - vset(m, v).len()) as nat
+}
+pub proof fn lemma_vset_bounds(m: &naga::Module, v: Set<naga::Handle<naga::Function>>)
+    ensures vset(m, v).finite(), vset(m, v).len() <= nfun(m),
+{
+    let r = Set::<int>::range(0, nfun(m));
+    r.lemma_len_filter(|d: int| vis(v, d));
+    assert(r.len() == nfun(m));
+}
+pub proof fn lemma_unvisited_mono(m: &naga::Module, v: Set<naga::Handle<naga::Function>>, v2: Set<naga::Handle<naga::Function>>)
+    requires vmono(v, v2),
+    ensures unvisited(m, v2) <= unvisited(m, v),
+{
+    lemma_vset_bounds(m, v); lemma_vset_bounds(m, v2);
+    assert(vset(m, v).subset_of(vset(m, v2)));
+    vstd::set_lib::lemma_len_subset(vset(m, v), vset(m, v2));
+}
+pub proof fn lemma_unvisited_insert(m: &naga::Module, v: Set<naga::Handle<naga::Function>>, c: int)
+    requires 0 <= c < nfun(m), !vis(v, c),
+    ensures unvisited(m, v.insert(mk_handle(c))) < unvisited(m, v),
+{
+    let v2 = v.insert(mk_handle::<naga::Function>(c));
+    lemma_vset_bounds(m, v); lemma_vset_bounds(m, v2);
+    assert forall|d: int| vset(m, v2).contains(d) == vset(m, v).insert(c).contains(d) by {
+        axiom_mk_handle_idx::<naga::Function>(d);
+        axiom_mk_handle_idx::<naga::Function>(c);
+    }
+    assert(vset(m, v2) =~= vset(m, v).insert(c));
+}
+
 pub proof fn lemma_sub_calls(m: &naga::Module, b: &naga::Block, i: int, k: int, c: int)
     requires 0 <= i < block_stmts(b).len(), 0 <= k < sub_blocks(&block_stmts(b)[i]).len(),
         block_calls(&sub_blocks(&block_stmts(b)[i])[k], c),
@@ -461,7 +503,6 @@ pub proof fn lemma_stmt_step(m: &naga::Module, b: &naga::Block, j: int,
     }
 }
 
-#[verifier::exec_allows_no_decreases_clause]
 fn update_stages_blocks(
     module: &naga::Module,
     block: &naga::Block,
@@ -475,6 +516,7 @@ fn update_stages_blocks(
         vmono(old(visited)@, final(visited)@),
         new_done(module, old(visited)@, final(visited)@, final(global_stages)@, stage),
         forall|c: int| #[trigger] block_calls(block, c) ==> callee_post(module, c, final(visited)@, final(global_stages)@, stage),
+    decreases unvisited(module, old(visited)@), 0nat, block_height(block),
 {
     proof { lemma_bits(); }
     let ghost v0 = visited@;
@@ -482,6 +524,7 @@ fn update_stages_blocks(
     let ghost b0 = *block;
     for statement in it: block.iter()
         invariant
+            v0 == old(visited)@,
             b0 == *block,
             it.seq().len() == block_stmts(&b0).len(),
             forall|j: int| 0 <= j < it.seq().len() ==> *(#[trigger] it.seq()[j]) == block_stmts(&b0)[j],
@@ -503,6 +546,7 @@ fn update_stages_blocks(
                     assert(sub_blocks(&st) =~= seq![*block]);
                     lemma_sub_inv(module, &b0, j, 0, v1, gs1, stage);
                 }
+                proof { lemma_unvisited_mono(module, v0, visited@); axiom_block_height(&b0, j, 0); }
                 update_stages_blocks(module, block, global_stages, stage, visited);
                 proof {
                     assert forall|c: int| #[trigger] calls_at(&b0, j, c) implies callee_post(module, c, visited@, global_stages@, stage) by {
@@ -516,6 +560,7 @@ fn update_stages_blocks(
                     assert(sub_blocks(&st) =~= seq![*accept, *reject]);
                     lemma_sub_inv(module, &b0, j, 0, v1, gs1, stage);
                 }
+                proof { lemma_unvisited_mono(module, v0, visited@); axiom_block_height(&b0, j, 0); }
                 update_stages_blocks(module, accept, global_stages, stage, visited);
                 let ghost v2 = visited@;
                 let ghost gs2 = global_stages@;
@@ -523,6 +568,7 @@ fn update_stages_blocks(
                     lemma_block_inv_step(module, &b0, v1, v2, gs1, gs2, stage);
                     lemma_sub_inv(module, &b0, j, 1, v2, gs2, stage);
                 }
+                proof { lemma_unvisited_mono(module, v0, visited@); axiom_block_height(&b0, j, 1); }
                 update_stages_blocks(module, reject, global_stages, stage, visited);
                 proof {
                     lemma_sub_post_mono(module, accept, v2, visited@, gs2, global_stages@, stage);
@@ -538,6 +584,7 @@ fn update_stages_blocks(
                 proof { assert(sub_blocks(&st) =~= cases@.map_values(|c: naga::SwitchCase| c.body)); }
                 for c in it2: cases
                     invariant
+                        v0 == old(visited)@, b0 == *block, vmono(v0, v1), mono(gs0, gs1),
                         it2.seq().len() == cases@.len(),
                         forall|k: int| 0 <= k < it2.seq().len() ==> *(#[trigger] it2.seq()[k]) == cases@[k],
                         sub_blocks(&st) =~= cases@.map_values(|c: naga::SwitchCase| c.body),
@@ -556,6 +603,7 @@ fn update_stages_blocks(
                         assert(sub_blocks(&st)[k] == c.body);
                         lemma_sub_inv(module, &b0, j, k, v2, gs2, stage);
                     }
+                    proof { lemma_mono_trans(gs0, gs1, gs2); lemma_vmono_trans(v0, v1, v2); lemma_unvisited_mono(module, v0, visited@); axiom_block_height(&b0, j, k); }
                     update_stages_blocks(module, &c.body, global_stages, stage, visited);
                     proof {
                         lemma_mono_trans(gs1, gs2, global_stages@);
@@ -580,6 +628,7 @@ fn update_stages_blocks(
                     assert(sub_blocks(&st) =~= seq![*body, *continuing]);
                     lemma_sub_inv(module, &b0, j, 0, v1, gs1, stage);
                 }
+                proof { lemma_unvisited_mono(module, v0, visited@); axiom_block_height(&b0, j, 0); }
                 update_stages_blocks(module, body, global_stages, stage, visited);
                 let ghost v2 = visited@;
                 let ghost gs2 = global_stages@;
@@ -587,6 +636,7 @@ fn update_stages_blocks(
                     lemma_block_inv_step(module, &b0, v1, v2, gs1, gs2, stage);
                     lemma_sub_inv(module, &b0, j, 1, v2, gs2, stage);
                 }
+                proof { lemma_unvisited_mono(module, v0, visited@); axiom_block_height(&b0, j, 1); }
                 update_stages_blocks(module, continuing, global_stages, stage, visited);
                 proof {
                     lemma_sub_post_mono(module, body, v2, visited@, gs2, global_stages@, stage);
@@ -615,6 +665,7 @@ fn update_stages_blocks(
                     }
                     let ghost v2 = visited@;
                     assert(vmono(v1, v2));
+                    proof { lemma_unvisited_mono(module, v0, v1); lemma_unvisited_insert(module, v1, c); }
                     update_stages(
                         module,
                         &module.functions[*function],
@@ -664,7 +715,6 @@ fn update_stages_blocks(
     }
 }
 
-#[verifier::exec_allows_no_decreases_clause]
 fn update_stages(
     module: &naga::Module,
     function: &naga::Function,
@@ -679,6 +729,7 @@ fn update_stages(
         vmono(old(visited)@, final(visited)@),
         new_done(module, old(visited)@, final(visited)@, final(global_stages)@, stage),
         fn_post(module, function, final(global_stages)@, stage),
+    decreases unvisited(module, old(visited)@), 1nat, 0nat,
 {
     broadcast use axiom_arena_index_req, axiom_handle_key_model, axiom_mk_handle;
     proof { lemma_bits(); }
@@ -694,6 +745,7 @@ fn update_stages(
     // Search the function body to find used globals.
     for (_, e) in it: function.expressions.iter()
         invariant
+            v0 == old(visited)@,
             it.iter.obeys_prophetic_iter_laws(),
             it.seq().len() == exprs(function).len(),
             forall|j: int| 0 <= j < it.seq().len() ==> *(#[trigger] it.seq()[j]).1 == exprs(function)[j],
@@ -749,6 +801,7 @@ fn update_stages(
                     }
                     let ghost v2 = visited@;
                     assert(vmono(v1, v2));
+                    proof { lemma_unvisited_mono(module, v0, v1); lemma_unvisited_insert(module, v1, c); }
                     update_stages(module, &module.functions[*f], global_stages, stage, visited);
                     proof {
                         lemma_done_from_top(module, c, global_stages@, stage);
